@@ -3,6 +3,8 @@
 # 1. verifies a sub-agent's seeded change in a scratch worktree (demo passes clean / fails patched, build + full suite)
 # 2. applies it to /repo, runs the property's check, reverts. Results -> /verif/seeded/<PROP>-<VARIANT>/result.txt
 set -u
+# /repo's working tree is shared with every other check run: serialise on a lock
+if [ -z "${REPO_LOCK_HELD:-}" ]; then exec env REPO_LOCK_HELD=1 flock /var/tmp/repo.lock "$0" "$@"; fi
 export PATH=/opt/veriftools/go1.26/bin:$PATH GOFLAGS=-mod=mod GOPROXY=off GOSUMDB=off GOTOOLCHAIN=local
 P=$1; X=$2; TIER=${3:-quick}
 SRC=/tmp/seed-$P-out/$X
